@@ -14,7 +14,7 @@ def cfg():
 
 
 def check(run, text, viol, counts, classes, chains=None, titrate_only=None, remove_penalised=True,
-          check_hetero=True):
+          check_hetero=True, allow_topup_extras=False):
     """run: obs.Run of `text`. Appends violations; returns the census dict (or None)."""
     c = cfg()
     cen = cz.census(text, chains=chains, titrate_only=titrate_only, ignore=tuple(c["ignore_residues"]))
@@ -36,7 +36,8 @@ def check(run, text, viol, counts, classes, chains=None, titrate_only=None, remo
             continue
         if first_sites is None:
             first_sites = sites
-        _check_conf(name, rec["confs"][name], sites, titrate_only, viol, counts, classes, c, check_hetero)
+        _check_conf(name, rec["confs"][name], sites, titrate_only, viol, counts, classes, c, check_hetero,
+                    allow_extra=allow_topup_extras and len(names) > 1)
     # ions: every hetero atom whose residue name is a configured ion must yield an ION group
     ions_expected = _ions_in_text(text, chains, c)
     for name in names:
@@ -71,7 +72,7 @@ def _sig(sites):
 
 
 def _check_conf(name, conf, sites, titrate_only, viol, counts, classes, c, check_hetero, match_atoms=True,
-                reported_only=False):
+                reported_only=False, allow_extra=False):
     exp = {}
     for s in sites:
         if s["in_list"]:
@@ -120,6 +121,11 @@ def _check_conf(name, conf, sites, titrate_only, viol, counts, classes, c, check
                         name, g["label"], g["titratable"], g["pka"])})
     for k, gs in got.items():
         if k not in exp:
+            if allow_extra:
+                # a conformation of a multi-model input is completed with atoms (and their sites)
+                # of the other models: extra sites are C08's subject
+                counts["topup_extra_sites"] = counts.get("topup_extra_sites", 0) + 1
+                continue
             g = gs[0]
             viol.append({"cls": "census-spurious", "msg": "%s: reported group %s (%s on atom %s) has no site in the structure%s" % (
                 name, g["label"], g["rtype"], g["aid"][5], " (or is not in the titrate-only list)" if titrate_only is not None else ""),
